@@ -15,6 +15,7 @@ import (
 	"go/token"
 	"go/types"
 	"reflect"
+	"sort"
 	"unsafe"
 
 	"golang.org/x/tools/go/ssa"
@@ -90,9 +91,13 @@ func ext۰reflect۰rtype۰Field(fr *frame, args []value) value {
 	st := args[0].(rtype).t.Underlying().(*types.Struct)
 	i := args[1].(int)
 	f := st.Field(i)
+	pkgPath := "" // reflect: PkgPath is empty for exported fields
+	if !f.Exported() && f.Pkg() != nil {
+		pkgPath = f.Pkg().Path()
+	}
 	return structure{
 		f.Name(),
-		f.Pkg().Path(),
+		pkgPath,
 		makeReflectType(rtype{f.Type()}),
 		st.Tag(i),
 		0,         // TODO(adonovan): offset
@@ -122,9 +127,48 @@ func ext۰reflect۰rtype۰NumIn(fr *frame, args []value) value {
 	return args[0].(rtype).t.Underlying().(*types.Signature).Params().Len()
 }
 
+// exportedMethods: the method set of t restricted to exported names, sorted by name (reflect's order).
+func exportedMethods(fr *frame, t types.Type) []*types.Selection {
+	mset := fr.i.prog.MethodSets.MethodSet(t)
+	var out []*types.Selection
+	for k := 0; k < mset.Len(); k++ {
+		if sel := mset.At(k); sel.Obj().Exported() {
+			out = append(out, sel)
+		}
+	}
+	sort.Slice(out, func(a, b int) bool { return out[a].Obj().Name() < out[b].Obj().Name() })
+	return out
+}
+
 func ext۰reflect۰rtype۰NumMethod(fr *frame, args []value) value {
-	// Signature: func (t reflect.rtype) int
-	return fr.i.prog.MethodSets.MethodSet(args[0].(rtype).t).Len() // beware: falsely reports generic methods
+	// Signature: func (t reflect.rtype) int — exported methods only, like reflect
+	return len(exportedMethods(fr, args[0].(rtype).t))
+}
+
+func ext۰reflect۰rtype۰Method(fr *frame, args []value) value {
+	// Signature: func (t reflect.rtype, i int) reflect.Method
+	t := args[0].(rtype).t
+	ms := exportedMethods(fr, t)
+	i := int(asInt64(args[1]))
+	if i < 0 || i >= len(ms) {
+		panic("reflect: Method index out of range")
+	}
+	sel := ms[i]
+	fn := fr.i.prog.MethodValue(sel)
+	sig := sel.Type().(*types.Signature)
+	// Method.Type / Method.Func take the receiver as their first parameter
+	params := []*types.Var{types.NewParam(token.NoPos, nil, "recv", t)}
+	for k := 0; k < sig.Params().Len(); k++ {
+		params = append(params, sig.Params().At(k))
+	}
+	full := types.NewSignatureType(nil, nil, nil, types.NewTuple(params...), sig.Results(), sig.Variadic())
+	return structure{
+		sel.Obj().Name(),
+		"",
+		makeReflectType(rtype{full}),
+		makeReflectValue(full, fn),
+		i,
+	}
 }
 
 func ext۰reflect۰rtype۰NumOut(fr *frame, args []value) value {
@@ -308,6 +352,11 @@ func ext۰reflect۰Value۰Type(fr *frame, args []value) value {
 func ext۰reflect۰Value۰Uint(fr *frame, args []value) value {
 	// Signature: func (reflect.Value) uint64
 	switch v := rV2V(args[0]).(type) {
+	case *Sym:
+		if _, _, fl := kindInfo(v.K); !fl && v.K != types.Bool {
+			return symConvNum(v, types.Uint64)
+		}
+		panic(fmt.Sprintf("reflect.(Value).Uint of kind %d", v.K))
 	case uint:
 		return uint64(v)
 	case uint8:
@@ -607,6 +656,7 @@ func initReflect(i *interpreter) {
 		"Size":      newMethod(i.reflectPackage, rtypeType, "Size"),
 		"String":    newMethod(i.reflectPackage, rtypeType, "String"),
 		"PkgPath":   newMethod(i.reflectPackage, rtypeType, "PkgPath"),
+		"Method":    newMethod(i.reflectPackage, rtypeType, "Method"),
 		"Name":      newMethod(i.reflectPackage, rtypeType, "Name"),
 	}
 	i.errorMethods = methodSet{
